@@ -119,12 +119,13 @@ class Project:
             with open(os.path.join(d, n), "w") as f:
                 f.write(c)
 
-    def write_split(self, d):
-        """The same files in two directories: the import cycles in d/two, everything else in d/one."""
+    def write_split(self, d, both=False):
+        """The same files in two directories: the import cycles in d/two, everything else in d/one.
+        both: the 2-cycles with an even number go to d/one instead, so that each directory holds cycles of its own."""
         for sub in ("one", "two"):
             os.makedirs(os.path.join(d, sub), exist_ok=True)
         for n, c in self.files.items():
-            sub = "two" if n.startswith(("cyc", "tri")) else "one"
+            sub = split_dir(n, both)
             with open(os.path.join(d, sub, n), "w") as f:
                 f.write(c)
         if not any(n.startswith(("cyc", "tri")) for n in self.files):
@@ -134,6 +135,26 @@ class Project:
 
 def base(path):
     return os.path.basename(path)
+
+
+def split_dir(n, both):
+    """the directory of file n in the split layout"""
+    if both and n.startswith("cyc") and int(n[4:-3]) % 2 == 0:
+        return "one"
+    return "two" if n.startswith(("cyc", "tri")) else "one"
+
+
+def split_analysis(case, proj_an):
+    """The analysis results of the files below the targets of a split case (a target twice or inside another one adds nothing),
+    cut out of the analysis of the flat project."""
+    covered = set()
+    for t in case["order"]:
+        t = os.path.normpath(t)
+        covered |= {"one", "two"} if t == "." else {t}
+    here = lambda fn: split_dir(fn, case["both"]) in covered
+    return dict(proj_an, functions=[f for f in proj_an["functions"] if here(f[0])],
+                findings=[f for f in proj_an["findings"] if here(f[0])],
+                cycles=[c for c in proj_an["cycles"] if here(c[0] + ".py")])
 
 
 def analyse_project(ck, proj, d, extra_cfg=None):
@@ -175,16 +196,17 @@ def canon_report(data):
 # ----------------------------------------------------------------------------------------------
 def mk_case(proj, select=None, maxcx=None, allow_dead=False, skip_clones=False, allow_circ=False, maxcyc=None, quiet=False,
             cfg=None, layout="in", decoy=None, explicit=None, target_missing=False, order=None, targets=None, spell=None,
-            cfg_at=None, cwd_out=False, shared=False):
+            cfg_at=None, cwd_out=False, shared=False, both=False):
     """cfg / decoy / explicit: dict with optional keys max, min, sev (values as written to the TOML file).
     layout: in (cwd = project, target .), out (cwd elsewhere, target ../proj), noargs (cwd = project, no target at all),
-    split (the project in two directories one/ and two/, both given as targets in the order `order`),
+    split (the project in two directories one/ and two/ - the import cycles in two/, with both=True some of them in one/ -; the
+    targets are the entries of `order`: one, two, also repeated, `.` and other spellings of them),
     list (a ListProject; targets = names of ATOMS, spell = how each is written, cwd_out = run from a directory next to the tree,
     cfg_at = root / da: where the config file lies; shared = run in the read-only copy of the tree that all such cases of one
     placement share, without the extra `pyscn analyze` run on the same targets)."""
     return dict(proj=proj, select=select, maxcx=maxcx, allow_dead=allow_dead, skip_clones=skip_clones, allow_circ=allow_circ,
                 maxcyc=maxcyc, quiet=quiet, cfg=cfg, layout=layout, decoy=decoy, explicit=explicit, target_missing=target_missing,
-                order=order, targets=targets, spell=spell, cfg_at=cfg_at, cwd_out=cwd_out, shared=shared)
+                order=order, targets=targets, spell=spell, cfg_at=cfg_at, cwd_out=cwd_out, shared=shared, both=both)
 
 
 def toml_of(c):
@@ -300,6 +322,18 @@ def core_cases(P):
         cs.append(mk_case(b, layout="split", order=order, select=["deadcode"], allow_dead=True))
         cs.append(mk_case(clean, layout="split", order=order, select=["complexity", "deadcode", "deps"]))
         cs.append(mk_case(cyc3, layout="split", order=order, select=["deps"], maxcyc=3))
+    # the cycles are looked for in every target (C19-G1), each of them once: cycles in both targets, a target twice or inside
+    # another one or spelled differently, three targets, a limit exactly at / one below the number of cycles of all targets
+    for order in (("one", "two"), ("two", "one"), ("two", "two"), ("one", "two", "one"), (".", "two"), ("two", "."),
+                  ("one", "./two", "two/"), ("one/../two", "one", "two")):
+        for pr, k in ((b, 2), (cyc3, 3), (big, 2)):
+            for bo in (False, True):
+                cs.append(mk_case(pr, layout="split", order=order, select=["deps"], both=bo))
+                cs.append(mk_case(pr, layout="split", order=order, select=["deps"], maxcyc=k, both=bo))
+                cs.append(mk_case(pr, layout="split", order=order, select=["deps"], maxcyc=k - 1, both=bo))
+    cs.append(mk_case(cyc3, layout="split", order=("one", "two"), select=["deps"], both=True, quiet=True))
+    cs.append(mk_case(cyc3, layout="split", order=("one", "two"), select=["complexity", "deadcode", "deps"], both=True, maxcyc=2))
+    cs.append(mk_case(cyc3, layout="split", order=("one", "two"), select=["deps"], both=True, allow_circ=True))
     cs.append(mk_case(clean, select=["bogus"]))
     cs.append(mk_case(b, select=["complexity", "nothing"], maxcx=20))
     return cs
@@ -448,7 +482,9 @@ def target_lists():
         ds, fs = iter(["DA", "DB", "SUB"]), iter(["FA", "FB", "NF"])
         ls.append(tuple(next(ds) if (pat >> (2 - i)) & 1 == 0 else next(fs) for i in range(3)))
     ls += [("DA", "NF", "DA"), ("NF", "DA", "NF"), ("FA", "FA", "FA"), ("NF", "FA", "NF"), ("SUB", "DA", "FB"), ("FB", "SUB", "NF"),
-           ("DA", "FA", "DA"), ("FA", "DA", "FA"), ("DB", "DB", "FB"), ("FB", "FB", "DB")]
+           ("DA", "FA", "DA"), ("FA", "DA", "FA"), ("DB", "DB", "FB"), ("FB", "FB", "DB"),
+           # plain files only, some named again (C19-G2: each file is analysed once)
+           ("FA", "FB", "FA"), ("FB", "NF", "FB", "NF"), ("NF", "NF", "FA", "NF")]
     for m in ("MISSF", "MISSD"):
         ls += [(m, "DA"), ("DA", m), (m, "FA"), ("FA", m), ("DA", m, "FA"), ("FA", "DA", m), (m, "FA", "DA")]
     return ls
@@ -570,7 +606,7 @@ def run_case_impl(args):
     if case["shared"]:
         pd = os.path.join(root, "shared_" + case["proj"].name, "proj")      # written once in main, never written to by a run
     elif case["layout"] == "split":
-        case["proj"].write_split(pd)
+        case["proj"].write_split(pd, case["both"])
     else:
         case["proj"].write(pd)
     if case["cfg"] is not None:
@@ -828,7 +864,8 @@ def main(tier):
     cases = [c for c in cases if an.get(c["proj"].name) is not None]
     for c in cases:
         # the analysis results the case is judged against: the project's, or (target lists) those of the union of the selected files
-        c["an"] = list_analysis(c, an[c["proj"].name]) if c["layout"] == "list" else an[c["proj"].name]
+        c["an"] = (list_analysis(c, an[c["proj"].name]) if c["layout"] == "list" else
+                   split_analysis(c, an[c["proj"].name]) if c["layout"] == "split" else an[c["proj"].name])
 
     for lp in LP.values():
         lp.write(os.path.join(root, "shared_" + lp.name, "proj"))
@@ -890,20 +927,7 @@ def main(tier):
         # (1) exit status vs the property
         clone_failed = "MCloneFailed" in p["msgs"]
         literal_ok = spec and not (selected(case, "clones", not case["skip_clones"]) and clone_failed)
-        first_only = (case["layout"] == "split" and case["order"][0] == "one" and selected(case, "deps", False) and not p["cycles"]
-                      and len(a["cycles"]) > 0 and "MInvalidSelect" not in p["msgs"])
-        e_first = ck.match_known({"class": "deps-first-target-only", "exit": 0, "cycles_in_first_target": 0}) if first_only else None
-        if e_first:
-            # the cycles live in the second target, which the deps check never looks at (recorded finding): everything else of the
-            # case is still judged, with the cycles taken out of the expectation; the model of runCheck gets all the cycles and is not compared
-            n_known += 1
-            ck.known_finding(e_first)
-            a = dict(a, cycles=[])
-            spec = py_spec(case, a)[0]
-            mv = None
-        if False:
-            pass
-        elif (rc == 0) != spec:
+        if (rc == 0) != spec:
             n_spec_bad += 1
             if n_spec_bad <= 4:
                 ck.violation("pyscn check exit status %d but the gate conditions say %s (effective max complexity %s, max cycles %s)"
@@ -920,28 +944,11 @@ def main(tier):
                 ck.violation("pyscn check exits 0 although the selected clone analysis could not run", replay)
         # (2) printed violation lines vs analyze
         is_list = case["layout"] == "list"
-        named = list_selection(case)[1] if is_list else {}
-        repeated = {base(f): n for f, n in named.items() if n > 1}       # plain-file targets named more than once
         want_cx = sorted((f[0], f[1], f[2], f[3], eff) for f in a["functions"] if eff is not None and f[3] > eff)
         want_dead = sorted(f for f in a["findings"] if f[2] == "critical")
         cx_on = selected(case, "complexity", True)
         dead_on = selected(case, "deadcode", True)
         judged = rc in (0, 1) and "MInvalidSelect" not in p["msgs"] and not (a["error"] or case["target_missing"])
-        if is_list and judged and repeated:
-            # recorded finding: when every target is a plain file, a file named twice is analysed twice; each of its violations is
-            # printed and counted once per mention (the verdict is unaffected).  Matched only if that is exactly what happened.
-            obs = impl.get("loud") if case["quiet"] else p
-            times = lambda xs: sorted(x for x in xs for _ in range(repeated.get(x[0], 1)))
-            o_cx, o_dead = sorted(obs["cx"]), sorted(obs["dead"])
-            w_cx, w_dead = (want_cx if cx_on else []), (want_dead if dead_on else [])
-            if (o_cx, o_dead) != (w_cx, w_dead) and (o_cx, o_dead) == (times(w_cx), times(w_dead)) and (rc == 0) == spec:
-                e_rep = ck.match_known({"class": "file-target-repeated", "all_targets_plain_files": True,
-                                        "lines_once_per_mention": True, "verdict_correct": True})
-                if e_rep:
-                    n_known += 1
-                    ck.known_finding(e_rep)
-                    judged = False
-                    mv = None
         if not case["quiet"] and judged:
             bad = None
             if cx_on and "MCxFailed" not in p["msgs"]:
